@@ -27,6 +27,7 @@ FRAG = {
  "F24": "give the wallet's inputs back with their own coordinates",
  "F25": "only count funds the wallet is willing to spend",
  "F26": "lite block placeholders must carry the hash",
+ "F29": "handshake response for a different key on an authenticated connection",
 }
 log = subprocess.run(["git","-C","/repo","log","--format=%h %s"],capture_output=True,text=True).stdout.splitlines()
 def find(frag):
